@@ -2,6 +2,7 @@ package props
 
 import (
 	"fmt"
+	"go/token"
 	"go/types"
 	"sort"
 	"strings"
@@ -440,6 +441,70 @@ func C15(p *ir.Program, r *report.R) {
 		})
 		c.MustFind("K1", memT+"collectTxs/take", ct, nC, "append to txs")
 	}
+	// ---- one capacity per list ---------------------------------------------------------------------------------
+	// Whether a checked transaction goes to the pending list or is parked is decided AFTER the check state
+	// advanced its nonce; every function that makes that decision for a list must use the same bound,
+	// or one of them parks nonce n while a sibling still admits n+1 to the pending list.
+	{
+		bound := map[string]string{"mem.goodTxs": "Size", "mem.specGoodTxs": "SpecSize", "mem.futureTxsCount": "FutureSize", "mem.utxoTxs": "Size"}
+		n := 0
+		for _, f := range p.Funcs {
+			if f.Pkg == nil || ir.RelPkg(f.Pkg.Pkg) != "mempool" || f.Blocks == nil || strings.HasSuffix(p.Pos(f.Pos()), "_test.go") {
+				continue
+			}
+			ir.Instrs(f, func(in ssa.Instruction) {
+				bo, ok := in.(*ssa.BinOp)
+				if !ok {
+					return
+				}
+				switch bo.Op {
+				case token.LSS, token.LEQ, token.GTR, token.GEQ:
+				default:
+					return
+				}
+				x, y := ir.Render(bo.X), ir.Render(bo.Y)
+				for _, pr := range [][2]string{{x, y}, {y, x}} {
+					if !strings.HasPrefix(pr[1], "mem.config.") {
+						continue
+					}
+					for list, want := range bound {
+						if pr[0] == "clist.CList.Len("+list+")" || pr[0] == list {
+							n++
+							r.Check("K5", "pool-capacity/"+strings.TrimPrefix(list, "mem.")+"/"+ir.FuncName(ir.EnclosingTop(f)), p.InstrPos(in), pr[1] == "mem.config."+want,
+								fmt.Sprintf("the fill level of %s is compared with config.%s everywhere: %s", list, want, pr[1]))
+						}
+					}
+				}
+			})
+		}
+		r.Check("K5", "pool-capacity/sites", "-", n >= 6, fmt.Sprintf("%d capacity comparisons found (confirmed by hand: 7)", n))
+	}
+
+	// ---- a list is walked with e.Next(): a removed element keeps its next pointer until the walk moved on ------
+	// clist.Remove leaves e.next intact exactly so that a loop `for e := l.Front(); e != nil; e = e.Next()`
+	// can remove while it walks. DetachNext on the element the walk stands on ends the walk: everything
+	// behind it is never re-checked (and after a commit never re-registered in the key-image cache).
+	{
+		n := 0
+		for _, f := range p.Funcs {
+			if f.Pkg == nil || ir.RelPkg(f.Pkg.Pkg) != "mempool" || f.Blocks == nil || strings.HasSuffix(p.Pos(f.Pos()), "_test.go") {
+				continue
+			}
+			for _, nx := range ir.Calls(f, "clist.CElement.Next") {
+				n++
+				recv := Arg(nx, 0)
+				for _, dn := range ir.Calls(f, "clist.CElement.DetachNext") {
+					if Arg(dn, 0) != recv {
+						continue
+					}
+					found, _, tr := ir.FindPath(ir.PathQuery{From: ir.At(dn.(ssa.Instruction)), Target: func(x ssa.Instruction) bool { return x == nx.(ssa.Instruction) }})
+					r.Check("K2", "list-walk/next-intact/"+ir.FuncName(ir.EnclosingTop(f)), p.InstrPos(dn.(ssa.Instruction)), !found, fmt.Sprintf("no DetachNext on the element whose Next() continues the walk; path %v", tr))
+				}
+			}
+		}
+		r.Check("K2", "list-walk/sites", "-", n >= 4, fmt.Sprintf("%d list walks with e.Next() found in package mempool", n))
+	}
+
 	// ---- check-state hygiene ---------------------------------------------------------------------------------
 	for _, sp := range []struct{ fn, name string }{
 		{"Transaction.CheckState", "types.(*Transaction).CheckState"},
